@@ -305,10 +305,21 @@ class AlgDomain(EventsMixin, Domain):
                   p.upper is None and p.step is None) or
                  (isinstance(p, ast.Constant) and p.value is Ellipsis)
                  for p in rest)
+      # w[0, sel] on a 1 x n row vector: the selected entries as a plain
+      # vector
+      row_pick = False
+      if isinstance(d, Vec) and d.orient == 'row' and len(parts) == 2 and \
+              isinstance(parts[0], ast.Constant) and parts[0].value == 0 and \
+              isinstance(parts[1], ast.Name):
+        full, row_pick = True, True
       if len(names) == 1 and full and idx and any(
               p[0] == 'expr' and p[1].d is UNKNOWN and p[1].const() is NOCONST
               for p in idx):
         tag = names[0].id
+        if isinstance(d, Vec) and row_pick:
+          fac = {(b[0], '%s|%s' % (b[1], tag)) + tuple(b[2:]): e
+                 for b, e in d.sx.factors.items()}
+          return Vec(SExpr(d.sx.coeff, fac), 'v')
         if isinstance(d, Vec):
           fac = {(b[0], '%s|%s' % (b[1], tag)) + tuple(b[2:]): e
                  for b, e in d.sx.factors.items()}
